@@ -976,9 +976,9 @@ func TestC19(t *testing.T) {
 		r.Sample(map[string]any{"replayed_case": caseNo, "part": part, "seed": seed})
 		return
 	}
-	nPure := r.N(3000, 200000)
-	nWrite := r.N(1500, 200000)
-	nSvc := r.N(1500, 150000)
+	nPure := r.N(12000, 200000)
+	nWrite := r.N(6000, 200000)
+	nSvc := r.N(6000, 150000)
 	for i := 0; i < nPure; i++ {
 		c19Pure(r, i)
 	}
